@@ -393,7 +393,7 @@ class Executor:
             if self._drop_verdict_if_declared_again(step):
                 # Declared again while the hashes were computed: what the command wrote is
                 # recorded as after a failure, the verdict is dropped.
-                self.workflow.update_file_hashes(new_out_hashes, cause=HashUpdateCause.FAILED)
+                self._record_written_outputs(new_out_hashes)
                 self.scheduler.record_run_stopped(step.i, succeeded=False)
                 self._report_step_counts()
                 return
@@ -890,6 +890,19 @@ class Executor:
     # Command execution helper
     #
 
+    def _record_written_outputs(self, out_hashes: Mapping[str, FileHash]) -> None:
+        """Record what a command whose verdict is dropped has written, as after a failed command.
+
+        Only paths that are (still) outputs are recorded: while the hashes were computed,
+        a new declaration may have given a path another role, which has no such transition.
+        """
+        still_outputs = {}
+        for path, file_hash in out_hashes.items():
+            file = self.workflow.find(File, path)
+            if file is not None and file.get_state() in FILE_STATES_BY_ROLE[FileRole.OUTPUT]:
+                still_outputs[path] = file_hash
+        self.workflow.update_file_hashes(still_outputs, cause=HashUpdateCause.FAILED)
+
     def _drop_verdict_if_declared_again(self, step: Step) -> bool:
         """Make a step pending, instead of applying a verdict, when it was declared anew meanwhile.
 
@@ -959,7 +972,7 @@ class Executor:
         result = await self._run_work_thread(run, functools.partial(compute_out_hashes, out_hashes))
         async with self.db:
             if result is not None:
-                self.workflow.update_file_hashes(result.new_hashes, cause=HashUpdateCause.FAILED)
+                self._record_written_outputs(result.new_hashes)
             self.workflow.declared_again.discard(run.step.i)
             run.step.delete_hash()
             run.step.set_state(StepState.PENDING)
